@@ -268,11 +268,15 @@ Section WithPoet.
 Variable poet : wgraph -> nat -> option sentence.
 
 (** * ScriptTranslation (user dictionary absent) *)
+(* the system phrases in the order ScriptTranslation::Next walks them: collector keys descending, each iterator drained *)
+Definition script_phrase_entries (coll : list (nat * list chunk)) : list (nat * dentry) :=
+  flat_map (fun ei : nat * list chunk => map (fun d => (fst ei, d)) (drain_all (snd ei))) (rev coll).
+
+Definition phrase_cand (ed : nat * dentry) : cand :=
+  mkCand (if d_predictive (snd ed) then TCompletion else TPhrase) 0 (fst ed) (d_text (snd ed)) (d_code (snd ed)).
+
 Definition script_phrases (coll : list (nat * list chunk)) : list cand :=
-  flat_map (fun ei : nat * list chunk =>
-              map (fun d => mkCand (if d_predictive d then TCompletion else TPhrase) 0 (fst ei) (d_text d) (d_code d))
-                  (drain_all (snd ei)))
-           (rev coll).
+  map phrase_cand (script_phrase_entries coll).
 
 (** ScriptTranslation::MakeSentence's word graph: for every start vertex of the syllable graph the first
     max_homophones entries of every end position *)
